@@ -172,6 +172,25 @@ def execute(mat, ctx):
                 except Exception:
                     pass
             ctx.count("c08_reassembled_after_edit")
+        if res["outcome"] == "product" and mat["id"].endswith(("2", "5", "8")):
+            # same entity objects, but each now wraps a re-loaded, re-annotated record of the same plasmid (another id, features
+            # re-labelled, one dropped): the product must be built from the records the entities wrap *now*
+            import copy, warnings
+            for e in [res["vector"]] + res["modules"]:
+                spec = copy.deepcopy(mat["vector"] if e is res["vector"] else mat["modules"][res["modules"].index(e)])
+                spec["id"] = spec["name"] = spec["id"] + "c"
+                if len(spec["features"]) > 1:
+                    del spec["features"][0]
+                for f in spec["features"]:
+                    f["quals"]["uid"] = [f["quals"]["uid"][0] + ".cur"]
+                e.record = gen.make_record(spec)
+            with warnings.catch_warnings():
+                warnings.simplefilter("ignore")
+                try:
+                    res["vector"].assemble(*res["modules"], id=mat["id"], name=mat["name"])
+                except Exception:
+                    pass
+            ctx.count("c08_reassembled_after_record_replaced")
         sig = [mat["enzyme"], mat["vector"]["seq"], [m["seq"] for m in mat["modules"]], [f["parts"] for f in mat["vector"]["features"]]]
         sample = {"kind": "generated", "enzyme": mat["enzyme"],
                   "features": [[f["quals"]["uid"][0], f["quals"]["note"][0], f["parts"]] for s in [mat["vector"]] + mat["modules"] for f in s["features"]][:8]}
